@@ -3,6 +3,7 @@
 #![cfg_attr(feature = "nightly", allow(incomplete_features))]
 //! `check <ID> [--tier quick|thorough] [--seed N] | check <ID> --replay <file> | check selftest`
 mod engine;
+mod est;
 mod exact;
 mod gen;
 mod hist;
